@@ -87,6 +87,10 @@ def fold(e, env, opaque_ok=True, depth=0):
                 return l * r
             if isinstance(e.op, ast.BitOr):
                 return l | r
+            if isinstance(e.op, (ast.LShift, ast.Pow)) and isinstance(l, int) and isinstance(r, int) and not isinstance(l, bool) and 0 <= r <= 4096 and abs(l) <= 2 ** 64:
+                return l << r if isinstance(e.op, ast.LShift) else l ** r
+            if isinstance(e.op, (ast.BitAnd, ast.BitXor, ast.RShift, ast.FloorDiv)) and isinstance(l, int) and isinstance(r, int) and not isinstance(l, bool):
+                return {ast.BitAnd: l & r, ast.BitXor: l ^ r, ast.RShift: l >> r if 0 <= r <= 4096 else _unf(), ast.FloorDiv: l // r if r else _unf()}[type(e.op)]
             if isinstance(e.op, ast.Mod) and isinstance(l, str):
                 return l % r
         except Exception:
